@@ -17,10 +17,11 @@ import sys
 import time
 
 ROOT = "/verif"
-BUILD = os.path.join(ROOT, "build")
+BUILD = os.environ.get("VF_BUILD", os.path.join(ROOT, "build"))    # scratch builds for seeded-change runs use their own
 GEN = os.path.join(BUILD, "gen")
 PY = os.path.join(ROOT, ".venv", "bin", "python")
-ENV = dict(os.environ, PYTHONPATH=f"/repo:{ROOT}:{BUILD}", PYTHONDONTWRITEBYTECODE="1",
+REPO = os.environ.get("VF_REPO", "/repo").rstrip("/")   # /repo unless a scratch worktree is being examined (seeded changes)
+ENV = dict(os.environ, PYTHONPATH=f"{REPO}:{ROOT}:{BUILD}", PYTHONDONTWRITEBYTECODE="1",
            PYTHONHASHSEED="0")
 ENV.pop("NIPYPE_PYDRA_VERIF", None)
 
@@ -64,7 +65,7 @@ def replay_a(mod, fn, call, timeout=300):
 
 def repo_state():
     def g(*a):
-        return subprocess.run(["git", "-C", "/repo", *a], capture_output=True, text=True).stdout
+        return subprocess.run(["git", "-C", REPO, *a], capture_output=True, text=True).stdout
     return {"head": g("rev-parse", "HEAD").strip(),
             "dirty_digest": hashlib.sha1((g("status", "--porcelain") + g("diff")).encode()).hexdigest()[:12]}
 
@@ -288,8 +289,9 @@ def main():
         "wall_s": wall,
         "violations": len(violations),
     }
-    os.makedirs(os.path.join(ROOT, "evidence"), exist_ok=True)
-    json.dump(ev, open(os.path.join(ROOT, "evidence", f"{pid}.json"), "w"), indent=1, default=str)
+    evdir = os.environ.get("VF_EVIDENCE_DIR", os.path.join(ROOT, "evidence"))
+    os.makedirs(evdir, exist_ok=True)
+    json.dump(ev, open(os.path.join(evdir, f"{pid}.json"), "w"), indent=1, default=str)
     print(f"[{pid}] tier={tier} conditions={len(conds)} {counts} e2={len(e2)} paths={paths} wall={wall}s")
     for rec in violations:
         print(f"VIOLATION property={pid} replay={rec['replay']}")
